@@ -106,7 +106,7 @@ class SMACScheduler(TrialScheduler):
             self.smac_configspace,
             deterministic=False,
             n_trials=1000,
-            seed=random_seed if random_seed else -1,
+            seed=random_seed if random_seed is not None else -1,
         )
 
         intensifier = HyperparameterOptimizationFacade.get_intensifier(
